@@ -150,7 +150,19 @@ def gen(rng, i, tier):
     return {"dsl": name, "var_types": var_types, "use_cache": rng.random() < 0.8, "skips": skips, "ops": ops}
 
 
+_SHRINK_BUDGET = [1500]      # candidates per worker process: the first failures are minimised fully,
+                              # a flood of failures (a badly broken tree) does not stall the run
+
+
 def shrink(case):
+    for c in _shrink(case):
+        if _SHRINK_BUDGET[0] <= 0:
+            return
+        _SHRINK_BUDGET[0] -= 1
+        yield c
+
+
+def _shrink(case):
     ops = case["ops"]
     for j in range(len(ops)):
         if len(ops) > 1:
@@ -167,6 +179,10 @@ def shrink(case):
             return c
         if "list" in t["source"]:
             ps = t["source"]["list"]
+            if len(ps) >= 4:
+                for half in (ps[:len(ps) // 2], ps[len(ps) // 2:]):
+                    nt = dict(t); nt["source"] = {"list": half}; nt["dl"] = [] if isinstance(t["dl"], list) else t["dl"]
+                    yield with_task(nt)
             for k in range(len(ps)):
                 nt = dict(t); nt["source"] = {"list": ps[:k] + ps[k + 1:]}
                 if isinstance(t["dl"], list) and k < len(t["dl"]):
